@@ -33,6 +33,10 @@ pub struct Obs {
     pub nontrivial: bool,
     /// extra key making the case "distinct" (defaults to the case json)
     pub shape: Option<String>,
+    /// for checks that enumerate many points inside one generated case (e.g. crash points):
+    /// number of points explored, and one key per non-trivial point
+    pub sub_evals: u64,
+    pub nt_keys: Vec<String>,
 }
 impl Obs {
     pub fn class(&mut self, c: impl Into<String>) { self.classes.push(c.into()); }
@@ -138,8 +142,9 @@ impl<C: Clone + std::fmt::Debug + 'static> SubDyn for Sub<C> {
                 Verdict::Pass => {
                     if counting {
                         let mut s = st.borrow_mut();
-                        s.evaluations += 1;
+                        s.evaluations += obs.sub_evals.max(1);
                         for c in &obs.classes { *s.classes.entry(format!("{sub}/{c}")).or_insert(0) += 1; }
+                        for k in &obs.nt_keys { s.nontrivial.insert(hash_str(&format!("{sub}|{k}"))); }
                         if obs.nontrivial {
                             let j = to_json(&case);
                             let key = match &obs.shape { Some(k) => k.clone(), None => j.dump() };
